@@ -326,6 +326,19 @@ Radiation(vec, fn, a) ==
   ELSE IF Len(vec["vec_amp"]) # Len(vec["vec_mean"]) \/ Len(vec["vec_amp"]) # Len(vec["vec_stdev"]) THEN NNeg(N1)
   ELSE GaussSum(NFromStr(a[1]), vec["vec_amp"], vec["vec_mean"], vec["vec_stdev"], 1)
 
+\* ------------------------------------------------------------------ ablation (not named by C01-C08: growth)
+\* only the exact fields (forms frozen from the pinned eval_exact_* bodies); the source terms have no documented system
+Ablation(par, fn, a) ==
+  LET C == Coords(a, 1)
+      L == PN(par, "L")
+      wav(amp, fr, kind) == JScale(PN(par, amp), Trig(kind, JScale(NDiv(NMul(PN(par, fr), NPi), L), C.x)))
+      rC  == JAdd(JConst(PN(par, "rho_C_0")), wav("rho_C_x", "a_rho_C_x", "sin"))
+      rC3 == JAdd(JConst(PN(par, "rho_C3_0")), wav("rho_C3_x", "a_rho_C3_x", "cos"))
+  IN  CASE fn = "exact_u" -> JV(JAdd(JConst(PN(par, "u_0")), wav("u_x", "a_ux", "sin")))
+        [] fn = "exact_t" -> JV(JAdd(JConst(PN(par, "T_0")), wav("T_x", "a_Tx", "cos")))
+        [] fn = "exact_rho_C" -> JV(rC) [] fn = "exact_rho_C3" -> JV(rC3) [] fn = "exact_rho" -> JV(JAdd(rC, rC3))
+        [] OTHER -> Undefined
+
 \* ------------------------------------------------------------------ dispatch
 HeatSols == {"heateq_1d_steady_const", "heateq_2d_steady_const", "heateq_3d_steady_const",
              "heateq_1d_steady_var", "heateq_2d_steady_var", "heateq_3d_steady_var",
@@ -422,6 +435,7 @@ Expected(sol, par, vec, fn, sig, args, cb, variant) ==
     [] sol = "cp_normal" -> IF Len(vec["vec_data"]) = 0 THEN Undefined ELSE CpNormal(par, vec, fn, IF Len(a) > 0 THEN a ELSE <<"0">>, di)
     [] sol = "radiation_integrated_intensity" ->
          IF \E k \in DOMAIN vec : vec[k] = <<"$unk">> THEN Undefined ELSE Radiation(vec, fn, a)
+    [] sol = "navierstokes_ablation_1d_steady" -> IF sig = "S" THEN Ablation(par, fn, a) ELSE Undefined
     [] sol = "laplace_2d" ->
          IF fn = "exact_phi" THEN JV(LaplacePhi(par, C))
          ELSE IF fn = "source_f" THEN Laplacian(LaplacePhi(par, C)) ELSE Undefined
